@@ -189,10 +189,16 @@ pub fn run_history_with(ch: &mut Chooser, scn: &Scn, cfg: &HistCfg, setup: &mut 
             views.insert(p.clone(), if scn.full_views { sess.dump(p) } else { sess.dump_light(p) });
         }
         // a snapshot at every activity boundary (structural unless the scenario asks for full views)
+        let stored = if scn.capture_store && quiescent {
+            Some(pids.iter().map(|p| (p.clone(), stored_rows(&sess, p))).collect())
+        } else {
+            None
+        };
         points.push(QPoint {
             at: sess.w.trace_len(),
             views: views.clone(),
             quiescent,
+            stored,
         });
         let ops = if ops_done.len() < cfg.max_ops {
             enumerate_ops(&pids, &views, cfg)
@@ -260,10 +266,17 @@ pub fn run_history_with(ch: &mut Chooser, scn: &Scn, cfg: &HistCfg, setup: &mut 
         views.insert(p.clone(), if scn.full_views { sess.dump(p) } else { sess.dump_light(p) });
     }
     if points.last().map(|q| q.at != sess.w.trace_len()).unwrap_or(true) {
+        let quiescent = sess.enabled().is_empty();
+        let stored = if scn.capture_store && quiescent {
+            Some(pids.iter().map(|p| (p.clone(), stored_rows(&sess, p))).collect())
+        } else {
+            None
+        };
         points.push(QPoint {
             at: sess.w.trace_len(),
             views,
-            quiescent: sess.enabled().is_empty(),
+            quiescent,
+            stored,
         });
     }
     let trace = sess.w.trace_snapshot();
